@@ -1,7 +1,7 @@
 (** Correspondence cases for C14: the harness records inputs and what the real keepers returned;
     [check] re-runs the model and compares the projected observables. *)
 From Coq Require Import List ZArith Bool.
-From Paloma Require Import Base.Corr Base.Dec Evm.Assign Cons.Fees Cons.Relay.
+From Paloma Require Import Base.Corr Base.Dec Evm.Assign Evm.AssignOv Cons.Fees Cons.Relay Cons.RelaySys.
 Import ListNotations.
 Open Scope Z_scope.
 
@@ -85,6 +85,57 @@ Fixpoint check_steps (c : config) (nv : Z) (s : state) (steps : list (op * (list
       && check_steps c nv s' r
   end.
 
+(** ---- second round: histories with changing tables, every enqueueing caller, retries ---- *)
+Definition raw_tables :=
+  (list (Z * list (Z * Z * list Z)) * list (Z * Z * Z * Z * Z) * list (Z * Z) * (Z * Z * Z * Z * Z) * Z * Z * Z)%type.
+Definition mk_tables (t : raw_tables) : tables :=
+  let '(sn, ms, fs, w, cf, sf, turn) := t in
+  {| tb_snap := map mk_val sn; tb_metrics := map mk_metric ms; tb_fees := fs; tb_weights := mk_weights w;
+     tb_community := cf; tb_security := sf; tb_turnstone := turn |}.
+Definition mk_set (t : raw_tables) : sop := SSetTables (mk_tables t).
+
+(** (id, assignee, elected estimate, public access data, error data, fees, remote address, retries) *)
+Definition sobs := (Z * Z * Z * bool * bool * fee_obs * Z * Z)%type.
+Definition sys_proj (s : sys) (m : qmsg) : sobs :=
+  let me := meta_of s (mid m) in
+  (mid m, massignee m, mest m, mpad m, merr m, fee_proj (mfees m),
+   match me with Some x => me_remote x | None => -1 end,
+   match me with Some x => me_retries x | None => -1 end).
+Definition sobs_eqb (a b : sobs) : bool :=
+  let '(i, a1, e, p, r, f, rm, rt) := a in
+  let '(i', a1', e', p', r', f', rm', rt') := b in
+  (i =? i') && (a1 =? a1') && (e =? e') && Bool.eqb p p' && Bool.eqb r r' && option_eqb zzz_eqb f f'
+  && (rm =? rm') && (rt =? rt').
+
+Definition sys_offers (s : sys) (nv : Z) : list (list Z) :=
+  map (fun v => map mid (for_relaying (queue (sy_q s)) v)) (zrange (Z.to_nat nv)).
+
+Fixpoint check_sys (ch nv : Z) (s : sys) (steps : list (sop * (list sobs * list (list Z)))) : bool :=
+  match steps with
+  | [] => true
+  | (o, (qo, off)) :: r =>
+      let s' := sstep ch s o in
+      list_eqb sobs_eqb (map (sys_proj s') (queue (sy_q s'))) qo
+      && list_eqb (list_eqb Z.eqb) (sys_offers s' nv) off
+      && check_sys ch nv s' r
+  end.
+
+(** ---- the response cap: blocks of repeated operations, offered ids as inclusive ranges ---- *)
+Fixpoint expand (blocks : list (Z * op)) : list op :=
+  match blocks with
+  | [] => []
+  | (n, o) :: r => repeat o (Z.to_nat n) ++ expand r
+  end.
+Fixpoint ranges (l : list Z) : list (Z * Z) :=
+  match l with
+  | [] => []
+  | x :: r =>
+      match ranges r with
+      | (a, b) :: t => if x + 1 =? a then (x, b) :: t else (x, x) :: (a, b) :: t
+      | [] => [(x, x)]
+      end
+  end.
+
 Inductive case :=
 | CDec (opc a b : Z) (got : option Z)
 | CRank (infos : list (Z * Z * Z * Z * Z * Z)) (w : Z * Z * Z * Z * Z) (got : list (Z * Z))
@@ -95,7 +146,9 @@ Inductive case :=
         (next : Z) (before after : list (Z * Z * Z)) (res : Z)
 | CFees (mult cf sf gas : Z) (got : option (Z * Z * Z))
 | CUpsert (mult : Z) (accepted : bool)
-| CQueue (cfg : list (Z * Z) * Z * Z) (nv : Z) (steps : list (op * (list qobs * list (list Z)))).
+| CQueue (cfg : list (Z * Z) * Z * Z) (nv : Z) (steps : list (op * (list qobs * list (list Z))))
+| CSys (ch nv : Z) (steps : list (sop * (list sobs * list (list Z))))
+| CCap (blocks : list (Z * op)) (v : Z) (qlen : Z) (got : list (Z * Z)).
 
 Definition check (c : case) : bool :=
   match c with
@@ -103,8 +156,11 @@ Definition check (c : case) : bool :=
   | CRank infos w got =>
       list_eqb zz_eqb (rank (map mk_vinfo infos) (mk_weights w)) got
   | CPick sn ms fs w chain req ts got =>
-      pick_eqb (pick (map mk_val sn) (map mk_metric ms) fs (mk_weights w) chain req ts) got
+      pick_eqb (pick_ov (map mk_val sn) (map mk_metric ms) fs (mk_weights w) chain req ts) got
   | CEnqueue sn ms fs w chain mev ts next before after res =>
+      if negb (rank_ok (build_infos (map mk_val sn) (map mk_metric ms) fs) (mk_weights w))
+      then list_eqb zzz_eqb before after && (res =? -100)   (* the ranking panics before anything is written *)
+      else
       let '(s', r) := enqueue_request (map mk_val sn) (map mk_metric ms) fs (mk_weights w) chain
                         (Some mev) ts 0 {| qs_next := next; qs_msgs := map mk_queued before |} in
       list_eqb zzz_eqb (map queued_proj (qs_msgs s')) after && (enq_code r =? res)
@@ -112,4 +168,8 @@ Definition check (c : case) : bool :=
       option_eqb zzz_eqb (fee_proj (fees_for mult cf sf gas)) got
   | CUpsert mult accepted => Bool.eqb (valid_multiplier mult) accepted
   | CQueue cfg nv steps => check_steps (mk_cfg cfg) nv init steps
+  | CSys ch nv steps => check_sys ch nv sinit steps
+  | CCap blocks v qlen got =>
+      let q := queue (run {| cfg_relayer_fees := []; cfg_community := 0; cfg_security := 0 |} (expand blocks)) in
+      (Z.of_nat (length q) =? qlen) && list_eqb zz_eqb (ranges (map mid (for_relaying q v))) got
   end.
